@@ -38,6 +38,9 @@ pub struct Case {
     pub min_max: bool,
     /// thread counts for the tool (compared with -t 1); empty = library only
     pub threads: Vec<u8>,
+    /// the BED text ends without a final newline
+    #[serde(default)]
+    pub no_final_newline: bool,
 }
 
 pub struct C17;
@@ -176,11 +179,12 @@ impl Prop for C17 {
                 12 => Just(vec![]),
                 1 => proptest::collection::vec(2u8..=16, 1..=3),
             ],
+            prop::bool::weighted(0.3),
         )
-            .prop_map(|(file, regions, name, min_max, threads)| {
+            .prop_map(|(file, regions, name, min_max, threads, no_final_newline)| {
                 // the large files always go through the tool with few threads (big chunks)
                 let threads = if regions.len() >= 900 { vec![2, 3] } else { threads };
-                Case { file, regions, name, min_max, threads }
+                Case { file, regions, name, min_max, threads, no_final_newline }
             })
             .boxed()
     }
@@ -264,6 +268,8 @@ impl Prop for C17 {
             .iter()
             .map(|r| if r.rest.is_empty() { format!("{}\t{}\t{}\n", r.chrom, r.s, r.e) } else { format!("{}\t{}\t{}\t{}\n", r.chrom, r.s, r.e, r.rest) })
             .collect();
+        let bed_text = if case.no_final_newline { bed_text.trim_end_matches('\n').to_string() } else { bed_text };
+        obs.label_if(case.no_final_newline, "bed-without-final-newline");
         let names_ok = rows.iter().all(|r| expected_name(case.name, r).is_some());
         if names_ok {
             let rd2 = open_bw(bytes.clone())?;
